@@ -161,8 +161,29 @@ Definition pol_httpcluster : policy := [
   P "httpcluster.serverEntry" "action" Immutable
 ].
 
+(* --- configuration values handed to the runners (audit M11: a new shared field here needs a policy decision).
+   httpserver.Config / httpserver.Route / composite.Config are built by their constructors and functional options and
+   are read-only afterwards: a runner stores a *Config in an atomic.Pointer and every goroutine reads through it, so a
+   write through a shared reference would be a race.  (httpserver.RequestProcessor is deliberately NOT tracked: it is
+   created per request and mutated by the one goroutine serving that request.) *)
+Definition pol_configs : policy := [
+  P "httpserver.Config" "ListenAddr" CtorOnly;
+  P "httpserver.Config" "DrainTimeout" CtorOnly;
+  P "httpserver.Config" "Routes" CtorOnly;
+  P "httpserver.Config" "ReadTimeout" CtorOnly;
+  P "httpserver.Config" "WriteTimeout" CtorOnly;
+  P "httpserver.Config" "IdleTimeout" CtorOnly;
+  P "httpserver.Config" "ServerCreator" CtorOnly;
+  P "httpserver.Config" "context" CtorOnly;
+  P "httpserver.Route" "name" CtorOnly;
+  P "httpserver.Route" "Path" CtorOnly;
+  P "httpserver.Route" "Handlers" CtorOnly;
+  P "composite.Config" "Name" CtorOnly;
+  P "composite.Config" "Entries" CtorOnly
+].
+
 Definition policy_all : policy :=
-  pol_pidzero ++ pol_lifecycle ++ pol_machine ++ pol_composite ++ pol_httpserver ++ pol_httpcluster.
+  pol_pidzero ++ pol_lifecycle ++ pol_machine ++ pol_composite ++ pol_httpserver ++ pol_httpcluster ++ pol_configs.
 
 (* Fields whose policy the CURRENT tree is known to violate (each one a recorded finding in
    /verif/known_findings.txt with key race:<struct>.<field>).  The theorem C17_table_ok is stated
